@@ -142,3 +142,48 @@ def t_get_fund():
     pin(obl, "Fundamentals._generate_next", "1cccfdb12f22", "assumed contract of _generate_next was written for this statement text")
     pin(obl, "Fundamentals._generate_log_return", "c33c25fe8c6e", "bounded stand-in of the covariance algebra was written for this statement text")
     return {"obligations": obl, "info": [info]}
+
+
+# ----------------------------------------------------------------------------- get_fundamental_prices: the multi-time accessor (same regeneration argument; result[i] = path[times[i]])
+def gfps_pre(st, a):
+    f = a["self"]; prices, pl = plist(st, f, a["market_id"].term)
+    g = st.read(f, "_generated_until").term
+    m = z3.Int("m_gfq"); i = z3.Int("i_gfq")
+    ts = a["times"].term; n = st.length(ts, ("int",)); tel = st.elems(ts, ("int",))
+    return [("the market is registered; every path is longer than the regeneration point; at least one time, all times >= 0",
+             z3.And(z3.Select(st.dict_dom(prices), a["market_id"].term), g >= 0, n >= 1, z3.ForAll([i], z3.Implies(z3.And(0 <= i, i < n), z3.Select(tel, i) >= 0)),
+                    z3.ForAll([m], z3.Implies(z3.Select(st.dict_dom(prices), m), st.length(z3.Select(st.dict_val(prices), m), ("real",)) >= g + 1))))]
+
+
+def gfps_post(st0, st1, a, res):
+    f = a["self"]; mid = a["market_id"].term
+    p0, l0 = plist(st0, f, mid); p1, l1 = plist(st1, f, mid)
+    g0 = st0.read(f, "_generated_until").term
+    i = z3.Int("i_gfr")
+    ts = a["times"].term; n = st0.length(ts, ("int",)); tel = st0.elems(ts, ("int",))
+    return [("C12 values at times up to the old regeneration point are never altered by generating further", z3.ForAll([i], z3.Implies(z3.And(0 <= i, i <= g0), z3.Select(st1.elems(l1, ("real",)), i) == z3.Select(st0.elems(l0, ("real",)), i)))),
+            ("one value per requested time, in the order of the request: the path's value at that time",
+             z3.And(st1.length(res.term, ("real",)) == n, z3.ForAll([i], z3.Implies(z3.And(0 <= i, i < n), z3.Select(st1.elems(res.term, ("real",)), i) == z3.Select(st1.elems(l1, ("real",)), z3.Select(tel, i)))))),
+            ("the path covers every requested time afterwards", z3.And(z3.ForAll([i], z3.Implies(z3.And(0 <= i, i < n), st1.read(f, "_generated_until").term > z3.Select(tel, i))), st1.read(f, "_generated_until").term >= g0))]
+
+
+GFPS_MODS = lambda st, a: ["len:Real", "el:Real", "dv:Int_Ref", ("f:Fundamentals._generated_until", [a["self"].term]), ("len:Int", []), ("el:Int", [])]
+GET_FUNDS = FSpec("Fundamentals.get_fundamental_prices", pre=gfps_pre, post=gfps_post, props=("C12", "C06"), modifies=GFPS_MODS, fresh_result=True, result=("list", ("real",)),
+                  param_types={"times": ("list", ("int",))})
+
+
+def gfps_loop():
+    base = gfp_loop()[0]
+
+    def inv(st, ctx):
+        ent = ctx["fn_entry"]; ts = st.env["times"].term; i = z3.Int("i_gfs")
+        return base.inv(st, ctx) + [("the requested times are untouched", z3.And(st.length(ts, ("int",)) == ent.length(ts, ("int",)), st.elems(ts, ("int",)) == ent.elems(ts, ("int",))))]
+    return {0: LoopSpec(inv, modifies=lambda st, ctx: ["len:Real", "el:Real", "dv:Int_Ref", ("f:Fundamentals._generated_until", [st.env["self"].term]), ("len:Int", []), ("el:Int", [])],
+                        header="max([x for x in times]) >= self._generated_until", name="generate-until-all-covered", frame_since_entry=True)}
+
+
+@task("Fundamentals.get_fundamental_prices", props=["C12", "C06"], functions=["Fundamentals.get_fundamental_prices"], replay="fundamentals")
+def t_get_funds():
+    obl, info = GET_FUNDS.verify(specs={("m", "Fundamentals", "_generate_next"): gn_contract}, loops=gfps_loop())
+    pin(obl, "Fundamentals._generate_next", "1cccfdb12f22", "assumed contract of _generate_next was written for this statement text")
+    return {"obligations": obl, "info": [info]}
